@@ -999,6 +999,11 @@ CHOICE_encode_uper(const asn_TYPE_descriptor_t *td,
         memb_ptr = (const char *)sptr + elm->memb_offset;
     }
 
+    if(!elm->type->op->uper_encoder) {
+        ASN_DEBUG("PER encoder is not defined for type %s", elm->type->name);
+        ASN__ENCODE_FAILED;
+    }
+
     if(ct && ct->range_bits >= 0) {
         if(per_put_few_bits(po, present_enc, ct->range_bits))
             ASN__ENCODE_FAILED;
